@@ -284,6 +284,22 @@ func (p *sparser) parseType() (string, error) {
 	if p.peek().k != "id" {
 		return "", fmt.Errorf("expected type name at %q in %q", p.peek().s, p.src)
 	}
+	if p.peek().s == "map" && p.t[p.p+1].k == "op" && p.t[p.p+1].s == "[" {
+		p.next()
+		p.next()
+		kt, err := p.parseType()
+		if err != nil {
+			return "", err
+		}
+		if err := p.expectOp("]"); err != nil {
+			return "", err
+		}
+		vt, err := p.parseType()
+		if err != nil {
+			return "", err
+		}
+		return s + "map[" + kt + "]" + vt, nil
+	}
 	s += p.next().s
 	if p.isOp(".") {
 		p.next()
